@@ -257,6 +257,12 @@ func (s *Scanner) AddSignatures(sigs []detection.Signature) error {
 		}
 
 		s.db.Signatures = append(s.db.Signatures, *sig)
+
+		// Update the map index so batch-added signatures can be fetched by ID.
+		if s.sigMap == nil {
+			s.sigMap = make(map[string]int)
+		}
+		s.sigMap[sig.ID] = len(s.db.Signatures) - 1
 	}
 	return nil
 }
